@@ -8,7 +8,12 @@ switches, struct-field invariants, loop bounds) or by an entry of the confirmed-
 whose structural part is re-verified on every run. An undischarged site is a violation naming the
 site; an unknown external callee makes the audit inconclusive."""
 from .common import *
-from ..expr import mk_field, peel_upd
+from ..expr import mk_field, peel_upd, norm as _norm
+
+
+def tnorm(e):
+    return _norm(e, keep_typed=True)
+
 from .. import tables as T
 
 U64 = (1 << 64) - 1
@@ -45,7 +50,8 @@ TOTAL_PREFIX = (
     'alloc::string::', 'alloc::vec::Vec::<T, A>::iter', 'alloc::vec::Vec::<T, A>::into_boxed_slice',
     'arrayvec::arrayvec::ArrayVec::<T, CAP>::len', 'arrayvec::arrayvec::ArrayVec::<T, CAP>::new',
     'arrayvec::arrayvec::ArrayVec::<T, CAP>::push_unchecked', 'nodrop::imp::NoDrop::<T>::new',
-    'core::intrinsics::', 'core::mem::', 'core::core_arch::', 'core::array::',
+    'core::intrinsics::', 'core::mem::', 'core::core_arch::', 'core::array::', 'alloc::fmt::format', 'alloc::str::<impl str>::',
+    'core::hint::must_use',
 )
 TOTAL_CONTAINS = (' as core::iter::traits::', ' as core::ops::deref::Deref', ' as core::cmp::', ' as core::clone::Clone>',
                   ' as core::ops::try_trait::', ' as core::convert::', ' as alloc::string::ToString>', ' as core::fmt::',
@@ -114,6 +120,8 @@ class Auditor:
     # ---------------------------------------------------------------- types
     def type_of(self, e, s):
         t = e[0]
+        if t == 'typed':
+            return e[1]
         if t == 'param':
             ty = s.body.locals[e[1]]['ty']
             return ty
@@ -176,6 +184,11 @@ class Auditor:
         if c[0] == 'param':
             return ('mem', ('p', c[1]))
         if c[0] == 'ref':
+            if c[1][0] == 'p' and all(el[0] == 'f' for el in c[2]):
+                x = ('mem', c[1])
+                for el in c[2]:
+                    x = ('field', x, el[1])
+                return x
             return ('place', c[1], c[2])
         return c
 
@@ -185,6 +198,11 @@ class Auditor:
             return e
         if isinstance(e[0], str):
             e = norm(e)
+        if e and e[0] == 'ref' and len(e) == 3 and e[1][0] == 'p' and all(el[0] == 'f' for el in e[2]):
+            x = ('mem', e[1])
+            for el in e[2]:
+                x = ('field', x, el[1])
+            e = x
         l = self.lenof(e)
         if l is not None:
             return l
@@ -204,6 +222,13 @@ class Auditor:
         return r
 
     def refine(self, r, ce, c, truthv, s, blk, depth):
+        if c[0] == 'in' and truthv and self.canon(c[1]) == ce:
+            vals = [v for v in c[2] if isinstance(v, int)]
+            if vals:
+                lo, hi = min(vals), max(vals)
+                if r:
+                    lo, hi = max(lo, r[0]), min(hi, r[1])
+                return (lo, hi)
         if c[0] == 'bin' and c[1] in ('Lt', 'Le', 'Gt', 'Ge', 'Eq', 'Ne') and truthv in (True, False):
             a, b = self.canon(c[2]), self.canon(c[3])
             op = c[1]
@@ -244,6 +269,11 @@ class Auditor:
     def _rng(self, e, s, blk, env, depth):
         t = e[0]
         d = depth + 1
+        if t == 'typed':
+            r = self.rng(e[2], s, blk, env, d)
+            if r:
+                return r
+            return None
         if t == 'int':
             return (e[1], e[1])
         if t == 'enum':
@@ -259,6 +289,20 @@ class Auditor:
             if m is not None:
                 return (0, m)
             return None
+        if t == 'discr' and e[1][0] == 'ite':
+            lo, hi = None, None
+            for v, x in e[1][2]:
+                if x == ('never',):
+                    continue
+                r = self.rng(('discr', x), s, blk, env, d)
+                if not r:
+                    return None
+                lo = r[0] if lo is None else min(lo, r[0])
+                hi = r[1] if hi is None else max(hi, r[1])
+            return (lo, hi) if lo is not None else None
+        if t == 'discr' and e[1][0] == 'enum':
+            v = self.f.enum_discr(e[1][1], e[1][2])
+            return (v, v) if v is not None else None
         if t == 'discr':
             ty = self.type_of(e[1], s)
             a = self.f.adts.get((ty or '').lstrip('&'))
@@ -396,7 +440,7 @@ class Auditor:
                 found = True
                 if n - 1 >= len(c['argvals']):
                     return None
-                a = norm(self.il.inline(c['argvals'][n - 1]))
+                a = tnorm(self.il.inline(c['argvals'][n - 1]))
                 r = self.rng(a, cs, c['blk'], self.guard_env(cs, c['blk']))
                 if not r:
                     return None
@@ -481,9 +525,24 @@ class Auditor:
         if trips is None:
             return None
         tmax = 0
-        for conds, leaf in paths_of(norm(latch)):
+        for conds, leaf in paths_deep(norm(latch), limit=2000):
             leaf_n = leaf
             if leaf_n == norm(e):
+                continue
+            if leaf_n[0] == 'int':
+                ri = (min(ri[0], leaf_n[1]), max(ri[1], leaf_n[1]))
+                continue
+            if leaf_n[0] == 'loop':
+                ro = self.rng(leaf_n, s, blk, (), depth) if leaf_n != norm(e) else None
+                if ro:
+                    ri = (min(ri[0], ro[0]), max(ri[1], ro[1]))
+                    continue
+            if not any(x == norm(e) for x in walk(leaf_n)):
+                # a value that does not depend on the accumulator (a reset)
+                ro = self.rng(leaf_n, s, blk, (), depth)
+                if not ro:
+                    return None
+                ri = (min(ri[0], ro[0]), max(ri[1], ro[1]))
                 continue
             if leaf_n[0] == 'bin' and leaf_n[1] == 'Add' and norm(e) in (leaf_n[2], leaf_n[3]):
                 other = leaf_n[3] if leaf_n[2] == norm(e) else leaf_n[2]
@@ -506,6 +565,17 @@ class Auditor:
         ty = l['next']['callee']
         if 'bitboard::BitBoard as core::iter::traits::iterator::Iterator' in ty:
             return 64
+        x = src
+        while x[0] == 'call' and x[1] in ('core::iter::traits::iterator::Iterator::rev', 'core::slice::<impl [T]>::iter') and x[2]:
+            x = x[2][0]
+        if x[0] == 'constdef':
+            c = self.f.consts.get(x[1])
+            if c:
+                aty = self.il.resolve_array_ty(c['ty'])
+                if aty.startswith('[') and ';' in aty:
+                    n = aty[1:-1].rsplit(';', 1)[1].strip()
+                    if n.isdigit():
+                        return int(n)
         return None
 
     def field_invariant(self, e, s):
@@ -602,8 +672,8 @@ class Auditor:
         kind = a['kind']
         blk = a['blk']
         env = self.guard_env(s, blk)
-        ops = [norm(self.il.inline(o)) for o in a['ops']]
-        cond = norm(self.il.inline(a['cond']))
+        ops = [tnorm(self.il.inline(o)) for o in a['ops']]
+        cond = tnorm(self.il.inline(a['cond']))
         if kind == 'bounds':
             ln, idx = ops
             ri = self.rng(idx, s, blk, env)
@@ -691,7 +761,7 @@ class Auditor:
     def discharge_call(self, s, c, kind):
         blk = c['blk']
         env = self.guard_env(s, blk)
-        args = [norm(self.il.inline(a)) for a in c['argvals']]
+        args = [tnorm(self.il.inline(a)) for a in c['argvals']]
         raw = [norm(a) for a in c['argvals']]
         if kind == 'unwrap':
             x = raw[0]
